@@ -111,6 +111,52 @@ impl COracle for Oracle {
             }
         }
         ctx.stats.fault("truncate");
+        // bytes that are not the encoding of a scalar (>= group order) do not decode
+        {
+            let l: [u8; 32] = [0xed, 0xd3, 0xf5, 0x5c, 0x1a, 0x63, 0x12, 0x58, 0xd6, 0x9c, 0xf7, 0xa2, 0xde, 0xf9, 0xde, 0x14, 0, 0, 0, 0, 0, 0, 0, 0, 0, 0, 0, 0, 0, 0, 0, 0x10];
+            let mut variants: Vec<(Vec<u8>, &str)> = Vec::new();
+            for (off, name) in [(0usize, "c"), (32usize, "s")] {
+                // scalar + l (same residue, non-canonical encoding)
+                let mut b = pb.clone();
+                let mut carry = 0u16;
+                for i in 0..32 {
+                    let v = b[off + i] as u16 + l[i] as u16 + carry;
+                    b[off + i] = v as u8;
+                    carry = v >> 8;
+                }
+                if carry == 0 {
+                    variants.push((b, name));
+                }
+                let mut b = pb.clone();
+                for i in 0..32 {
+                    b[off + i] = 0xff;
+                }
+                variants.push((b, name));
+                let mut b = pb.clone();
+                b[off..off + 32].copy_from_slice(&l);
+                variants.push((b, name));
+            }
+            for (b, name) in variants {
+                ctx.stats.fault("noncanonical_scalar");
+                if let Ok(p) = pp::ProofDLEQ::load_from_bincode(&b) {
+                    let again = p.serialize_to_bincode().unwrap_or_default();
+                    return Err(Violation::new(
+                        "c15.noncanonical_accepted",
+                        name,
+                        format!("a proof whose scalar {} is not a canonical encoding (>= group order) was accepted{}", name, if again != b { " and re-serialises to different bytes: the restored value is not what was sent" } else { "" }),
+                    ));
+                }
+            }
+            // any accepted 64-byte string must be exactly the encoding of the value it restores to
+            let mut b = pb.clone();
+            let i = ctx.ch.index(64);
+            b[i] ^= 1 << ctx.ch.draw(8);
+            if let Ok(p) = pp::ProofDLEQ::load_from_bincode(&b) {
+                if p.serialize_to_bincode().ok().as_ref() != Some(&b) {
+                    return Err(Violation::new("c15.noncanonical_accepted", "bitflip", "an accepted proof does not re-serialise to the bytes it was loaded from"));
+                }
+            }
+        }
         let mut big = pb.clone();
         big.resize(pp::MAX_SERIALIZED_PROOF_SIZE + 1, 0);
         match pp::ProofDLEQ::load_from_bincode(&big) {
